@@ -26,5 +26,12 @@ for tp in (5, 6, 7):
         if op == 0 or tp == 6: tiers["quick"] = {"defines": {"DN": 4, "DVALS": "{0,1,3,5}"}} if tp == 5 else {}
         HARNESSES.append(dict(COMMON, name="loc_%s%s" % (TP[tp], "_op" if op else ""), entry="h_location", defines={"TYPE": 0, "TPL": tp, "OPP": op}, encoded=EVAL, tiers=tiers,
                               bounds="location template %s with symbolic digits, logical/physical symbolic, arbitrary accumulators" % TP[tp], cost=30))
+# the nested NUMA template once more on seed S2 (real core; a CPU-less NUMA node outside package 0)
+import sys as _sys
+_sys.path.insert(0, os.path.dirname(__file__))
+from _seed import seed_uw as _seed_uw
+HARNESSES.append(dict(COMMON, name="loc_nested_numa_s2", entry="h_location", defines={"TYPE": 0, "TPL": 6, "OPP": 0, "FIX_S2": 1}, units=["hwloc/bitmap.c", "hwloc/traversal.c"], unwind=14,
+                      unwindset=_seed_uw(**dict(COMMON["unwindset"])), encoded=EVAL, tiers={"quick": {}, "thorough": {}},
+                      bounds="location pack:<d>.numa:all on seed S2 (packages {0,1,2} and {5}, NUMA#0 inside package 0, a CPU-less NUMA#2 attached to the machine), digits 0..5, logical/physical symbolic, arbitrary accumulators", cost=60))
 OUTSIDE = ["process-level behaviour of the tools: exit statuses, option parsing in main(), output formats, --largest/-I/-N/-H consistency", "lstopo exports = library exports, hwloc-diff | hwloc-patch pipeline (library side: C16)", "hwloc-distrib (arithmetic: C09 distrib)",
            "I/O, Misc and filter ([...]) locations, raw cpuset strings (C04 parsers)"]
